@@ -15,6 +15,7 @@ the truthful-accounting judge on recorded runs) and the float-rounding half.  Co
 import FsVerif.Proofs.MachineStat
 import FsVerif.Proofs.NodeClock
 import FsVerif.Proofs.MachineStatRun
+import FsVerif.Proofs.MachineTruth
 import FsVerif.Proofs.PackClock
 import FsVerif.Proofs.PackB
 import FsVerif.Props.C09
@@ -106,6 +107,32 @@ theorem machine_time_partition (cfg : MacCfg) (acts : List MacState.Act) :
 /-- non-vacuity on the RECORDED blocking-machine run of Props/C09: last change at 10, set-up ended at 0, both groups add up to 10 -/
 example : let s := MacState.runActs (MacState.init { wc := 1, blocking := true }) C09.demoBlocking
     (s.last, s.tEnd, sumA s.tt, sumB s.tt) = (some 10, some 0, 10, 10) := by decide +kernel
+
+/-! ### "The time charged to processing, blocked and idle states equals the time the node actually spent …": the state representation
+the machine publishes — (#workers processing, #workers blocked), the argument of the NEXT charge of `update_state_rep` — is the actual
+state of its workers after every activation that follows the set-up period, for every activation sequence in which no activation dies of
+the IndexError of `time_per_work_occupancy[num_workers]` (`NoIndexCrash`; whether that branch is reachable is C20's business).  Time
+passes only between activations and is charged to the states named by that representation (`update_state_rep_step`), so the time charged
+to a state is the time the workers actually were in it. -/
+
+theorem machine_rep_is_actual_activity (cfg : MacCfg) (acts : List MacState.Act) (hq : MacState.NoIndexCrash (MacState.init cfg) acts) :
+    let s := MacState.runActs (MacState.init cfg) acts
+    s.last ≠ none →
+    s.rep = some ((((s.workers.filter (fun w => w.inList && !w.blocked)).length : Nat) : Int), (((s.workers.filter (fun w => w.inList && w.blocked)).length : Nat) : Int)) := by
+  intro s hl
+  rcases MacState.runActs_tr acts (MacState.init_mr cfg) (Or.inl rfl) hq with h | h
+  · exact absurd h hl
+  · exact h.rep
+
+instance decNoIndexCrash : ∀ (acts : List MacState.Act) (s : MacState), Decidable (MacState.NoIndexCrash s acts)
+  | [], _ => isTrue trivial
+  | x :: xs, s =>
+    have := decNoIndexCrash xs (s.step x.proc x.t x.ans).1
+    (inferInstance : Decidable (Call.crash .index ∉ (s.step x.proc x.t x.ans).2 ∧ MacState.NoIndexCrash (s.step x.proc x.t x.ans).1 xs))
+
+/-- non-vacuity on the RECORDED blocking-machine run of Props/C09: no activation dies, and at its end one worker is blocked -/
+example : MacState.NoIndexCrash (MacState.init { wc := 1, blocking := true }) C09.demoBlocking ∧
+    (MacState.runActs (MacState.init { wc := 1, blocking := true }) C09.demoBlocking).rep = some (0, 1) := by decide +kernel
 
 /-! ### Combiner and Splitter: the partition over all activation sequences -/
 
